@@ -81,6 +81,7 @@ Fixpoint dec_stmt (v : wv) : option stmt :=
   | WL [WI 2; x; e] => match un_text x, dec_expr e with Some n, Some ex => Some (SRemove n ex) | _, _ => None end
   | WL [WI 3; WI 0; x] => option_map (fun n => SObs (OLen n)) (un_text x)
   | WL [WI 3; WI 1; x] => option_map (fun n => SObs (OFlash n)) (un_text x)
+  | WL [WI 3; WI 2; e] => option_map (fun ex => SObs (OGlyph ex)) (dec_expr e)
   | WL [WI 5; WL a; WL b] => match decs a, decs b with Some x, Some y => Some (SIf x y) | _, _ => None end
   | WL [WI 6; WL a] => option_map SWhile (decs a)
   | WL [WI 7; x; WL a] => match un_text x, decs a with Some n, Some b => Some (SFor n b) | _, _ => None end
